@@ -22,10 +22,10 @@ def requirement_contract():
         },
         ensures=[
             # from the property text: the required field must be SET (None / False-for-a-flag is unset) ...
-            ("unset-field-never-satisfies", "property:C31", "implies(value is None or (field.type is bool and value is False), result is False)"),
+            ("unset-field-never-satisfies", "property:C31", "implies(value is None or value is False, result is False)"),
             # ... to an allowed value where allowed values are given
             ("allowed-values-respected", "property:C31", "implies(self.allowed_values is not None and not (value in self.allowed_values), not result)"),
-            ("set-and-allowed-satisfies", "property:C31", "implies(not (value is None) and not (field.type is bool and value is False) and (self.allowed_values is None or value in self.allowed_values), bool(result))"),
+            ("set-and-allowed-satisfies", "property:C31", "implies(not (value is None) and not (value is False) and (self.allowed_values is None or value in self.allowed_values), bool(result))"),
         ],
         allow_raise=False,
         trusted=["getattr(inputs, name) and get_fields(inputs) are pure reads; the name->field dictionary contains self.name (checked by Task._check_arg_refs at class construction)"],
